@@ -275,6 +275,16 @@ client_switch_proxy(struct archive_read_filter *self, unsigned int iindex)
 		return (ARCHIVE_OK);
 
 	self->archive->client.cursor = iindex;
+	/*
+	 * The block last handed out by the node we are leaving belongs to
+	 * that node and is released when it is closed: forget it, so that
+	 * a seek that fails after switching nodes cannot leave the filter
+	 * pointing into freed memory.
+	 */
+	self->client_buff = NULL;
+	self->client_next = NULL;
+	self->client_total = 0;
+	self->client_avail = 0;
 	data2 = self->archive->client.dataset[self->archive->client.cursor].data;
 	if (self->archive->client.switcher != NULL)
 	{
